@@ -125,7 +125,11 @@ pub enum Dimension {
     Frequency,
     /// A resolution (number of pixels per length).
     Resolution,
-    /// No dimension (no unit, percentage, or grid fraction).
+    /// A percentage (of something the stylesheet does not know).
+    Percent,
+    /// A grid fraction.
+    Fr,
+    /// No dimension (no unit).
     None,
     /// The dimension of an unknown (but named) unit.
     Unknown(String),
@@ -162,7 +166,9 @@ impl Unit {
 
             Self::Dpi | Self::Dpcm | Self::Dppx => Dimension::Resolution,
 
-            Self::Percent | Self::Fr | Self::None => Dimension::None,
+            Self::Percent => Dimension::Percent,
+            Self::Fr => Dimension::Fr,
+            Self::None => Dimension::None,
 
             Self::Unknown(ref name) => Dimension::Unknown(name.clone()),
         }
@@ -288,7 +294,11 @@ pub enum CssDimension {
     Frequency,
     /// A resolution (number of pixels per length).
     Resolution,
-    /// No dimension (no unit, percentage, or grid fraction).
+    /// A percentage (of something the stylesheet does not know).
+    Percent,
+    /// A grid fraction.
+    Fr,
+    /// No dimension (no unit).
     None,
     /// The dimension of an unknown (but named) unit.
     Unknown(String),
@@ -310,7 +320,9 @@ impl From<Dimension> for CssDimension {
             Dimension::Time => Self::Time,
             Dimension::Frequency => Self::Frequency,
             Dimension::Resolution => Self::Resolution,
-            Dimension::None => Self::None,
+            Dimension::Percent | Dimension::Fr | Dimension::None => {
+                Self::None
+            }
             Dimension::Unknown(s) => Self::Unknown(s),
         }
     }
